@@ -62,7 +62,7 @@ class SimulationScenario():
         if "points" in dictionary:
             self.points = dictionary["points"]
             if model is not None:
-                self.model.points = self.points
+                self.model.points.update(self.points)
         else:
             self.points = {}
 
